@@ -164,6 +164,25 @@ def oracle(ctx):
         for name, got, want in fails:
             res.oracle_failures.append(dict(op=op, input=h, impl_output=f'{name}: {core.dec_line(got)}',
                                             oracle_expectation=f'{name}: {core.dec_line(want)} (fold: last wins / accumulate / reset on empty)'))
+    # decisions are made on the effective value too: a key that was assigned and then reset is *unset* — also for the checks that two
+    # keys exclude each other or that one of them is required (Image= / Rootfs= of a container; the reset in the same section, a
+    # repeated one, or — through the file-level spellings below — a drop-in)
+    excl = []
+    for hist, want in ((['Image=img', 'Rootfs=/r', 'Image='], ['--rootfs', '/r']), (['Rootfs=/r', 'Image=img', 'Rootfs='], ['img']),
+                       (['Image=img', 'Image=', 'Rootfs=/r'], ['--rootfs', '/r']), (['Rootfs=/r', 'Rootfs=', 'Image=img'], ['img']),
+                       (['Image=a', 'Rootfs=/r', 'Image=', 'Rootfs=', 'Image=b'], ['b']), (['Image=img', 'Rootfs=/r'], None), (['Image=img', 'Image='], None)):
+        for sep in ('', '[Unit]\nDescription=x\n[Container]\n'):
+            excl.append((hist, want, '[Container]\n' + sep.join(h + '\n' for h in hist)))
+    eo = ctx.impl([f'convert\t0\t0\t{hx("/q/x.container")}\t{hx(t)}' for _, _, t in excl])
+    from props import c02 as _c02
+    for (hist, want, text), a, av in zip(excl, eo, _c02.argv(ctx, eo)):
+        res.oracle_evals += 1
+        if want is None:
+            if av is not None:
+                res.oracle_failures.append(dict(op='convert', input=text, impl_output=str(av)[:300], oracle_expectation='both keys effectively set (or none): the unit is rejected'))
+        elif av is None or av[-len(want):] != want:
+            res.oracle_failures.append(dict(op='convert', input=text, impl_output=core.dec_line(a)[:400] if av is None else str(av),
+                                            oracle_expectation=f'the effective values are what counts: the command ends with {want}'))
     # command level: the effective value is what the podman command carries
     cases = []
     for _ in range(1200 if ctx.thorough else 300):
